@@ -32,8 +32,7 @@ StabiliseToHandlers(s) == RunHandlerSteps(StabiliseEndA(RunSteps(StabiliseBegin(
 Field(e, f, dflt) == IF f \in DOMAIN e THEN e[f] ELSE dflt
 
 \* the spec action for one recorded API action
-Apply(s0, e) ==
-  LET s == ApiClearLogs(IF Ok(s0) THEN s0 ELSE Recover(s0)) IN
+ApplyRaw(s, e) ==
   CASE e.a = "var"      -> ApiVar(s, e.v)
     [] e.a = "const"    -> ApiConst(s, e.v)
     [] e.a = "map"      -> ApiMap(s, e.f, e["in"], Field(e, "eff", <<>>))
@@ -44,6 +43,7 @@ Apply(s0, e) ==
     [] e.a = "zip"      -> LET s1 == ApiZip(s, e["in"][1], e["in"][2]) IN ApiMap(s1, "id", s1.n, <<>>)
     [] e.a = "dependon" -> ApiDependOn(s, e["in"][1], e["in"][2])
     [] e.a = "bind"     -> ApiBind(s, e["in"], e.recipe)
+    [] e.a = "memo_new" -> ApiMemoNew(s, e.f, e.over)
     [] e.a = "xjoin"    -> ApiXJoin(s, e["in"])
     [] e.a = "xsum"     -> ApiXSum(s, e.sel, e.ins)
     [] e.a = "cutoff"   -> ApiSetCutoff(s, e.n, [c |-> e.c])
@@ -58,7 +58,13 @@ Apply(s0, e) ==
     [] e.a = "state_unsubscribe" -> StateUnsubscribe(s, Field(e, "to", e.o), e.t)
     [] e.a = "set_max_height" -> ApiSetMaxHeight(s, e.h)
     [] e.a = "stabilise" -> StabiliseToHandlers(s)
+    [] e.a = "drop"     -> ApiDropHandle(s, e.n)
+    [] e.a = "drop_var" -> ApiDropVar(s, e.n)
     [] OTHER -> s
+\* the harness keeps a handle to the node each constructor returns
+Apply(s0, e) ==
+  LET s == ApiClearLogs(IF Ok(s0) THEN s0 ELSE Recover(s0)) IN
+  HoldFor(e, ApplyRaw(s, e))
 
 ---------------------------------------------------------------------------
 (* Judging one step.  `pre` is the spec state before Finish for stabilise   *)
@@ -74,10 +80,18 @@ SortedInvOf(inv) ==
                IN <<[n |-> m, args |-> e.args]>> \o Go(t \ {m})
   IN Go(ns)
 
+RECURSIVE HasMemo(_)
+HasMemo(rc) == CASE rc.r = "memo" -> TRUE
+                 [] rc.r = "alt" -> \E i \in 1..Len(rc.alts) : HasMemo(rc.alts[i])
+                 [] rc.r \in {"junk", "leak"} -> HasMemo(rc.then)
+                 [] rc.r = "bind" -> HasMemo(rc.inner)
+                 [] OTHER -> FALSE
 JudgeReads(post, obs) ==
   {LET r == obs.reads[o]
        w == RefReadS(post, o)
    IN Viol(IF post.poisoned THEN "C13"
+           ELSE IF \E m \in ConeOf(post, {post.onode[o]}, {}) :
+                     post.def[m].k = "lhs" /\ HasMemo(post.def[m].recipe) THEN "C20"
            ELSE IF \E m \in ConeOf(post, {post.onode[o]}, {}) : post.def[m].k = "expert" THEN "C14"
            ELSE IF r[1] = "ok" /\ w[1] = "ok" THEN "C01"
            ELSE IF r[2] = "ObservingInvalid" \/ w[2] = "ObservingInvalid" THEN "C03"
@@ -115,6 +129,12 @@ JudgeInv(pre, obs, coneB) ==
                  /\ pre.def[n].k \in {"map", "map2", "fold", "lhs"}
                  /\ \A c \in 1..Len(pre.def[n].ins) : pre.valid[pre.def[n].ins[c]]
                  /\ gotSorted[j].args # ArgsOf(pre, n)}}
+
+\* C20: the memoised function's underlying builder ran exactly for the keys without a live node
+JudgeMemo(pre, obs) ==
+  LET got == [i \in 1..Len(obs.memo) |-> [m |-> obs.memo[i].m, key |-> obs.memo[i].key]] IN
+  IF got = pre.memoLog THEN {}
+  ELSE {Viol("C20", <<"memoised builder invocations", got, "expected", pre.memoLog>>)}
 
 \* C07: reads issued from inside user functions of the round
 JudgeInReads(pre, obs) ==
@@ -154,20 +174,23 @@ ModelClass(post) ==
     [] post.panic = "panic:status" -> "status"
     [] post.panic = "panic:user"   -> "user"
     [] post.panic = "panic:max_height_seen" -> "max_height_seen"
+    [] post.panic = "panic:assert_foreign" -> "foreign"
     [] OTHER -> "other"
 JudgePanic(post, obs) ==
   IF obs.panic # "" /\ Ok(post)
   THEN {Viol("C04", <<"panic", obs.panic>>)}
        \cup (IF obs.pclass \in {"height", "cyclic", "max_height_seen"}
              THEN {Viol("C19", <<"admissible call rejected", obs.panic>>)} ELSE {})
-  ELSE IF obs.panic = "" /\ ~Ok(post) /\ ModelClass(post) \in {"height", "cyclic", "status", "max_height_seen"}
+  ELSE IF obs.panic = "" /\ ~Ok(post) /\ ModelClass(post) \in {"height", "cyclic", "status", "max_height_seen", "foreign"}
        THEN {Viol("C19", <<"no panic although", post.panic, "is due">>)}
   ELSE IF obs.panic # "" /\ ~Ok(post) /\ ModelClass(post) \in {"height", "cyclic"}
           /\ obs.pclass # ModelClass(post)
        THEN {Viol("C19", <<"panic does not name the cause", post.panic, obs.panic>>)}
   ELSE {}
 JudgeDropAll(e) ==
-  IF e.obs.panic # "" THEN {Viol(IF e.after_panic THEN "C19" ELSE "C12", <<"dropping everything panicked", e.obs.panic>>)}
+  IF e.obs.panic # ""
+  THEN {Viol(IF ~e.after_panic THEN "C12" ELSE IF e.user_panic THEN "C13" ELSE "C19",
+             <<"dropping everything panicked", IF e.after_panic THEN "after a caught panic" ELSE "after a clean run", e.obs.panic>>)}
   ELSE {}
 
 ---------------------------------------------------------------------------
@@ -208,6 +231,14 @@ JudgeAudit(post, obs) ==
   IF obs.panic # "" \/ ~Ok(post) \/ obs.snap.status # "idle" THEN {} ELSE
   LET s == SnapState(post, obs.snap) IN
   {Viol("C11", <<"audit failed", p>>) : p \in AuditParts(s)}
+
+\* C12: released nodes = nodes no strong reference reaches
+JudgeOwn(post, obs) ==
+  IF obs.panic # "" \/ ~Ok(post) \/ post.poisoned \/ post.status # "idle" THEN {} ELSE
+  LET rel == SeqSet(obs.snap.rel) \cap (1..post.n)
+      want == Released(post) IN
+  {Viol("C12", <<"node", n, "is still alive although nothing references it">>) : n \in want \ rel}
+  \cup {Viol("C12", <<"node", n, "was released although it is still referenced">>) : n \in rel \ want}
 
 \* binding C: the snapshot must equal the spec state on the engine's own variables
 Diverge(post, sn) ==
@@ -264,12 +295,12 @@ TraceStep ==
                      \cup (IF obs.panic # "" /\ ~Ok(post) THEN JudgeReads(Recover(post), obs) ELSE {})
                      \cup (IF obs.panic = "" /\ Ok(post)
                            THEN JudgeReads(post, obs) \cup JudgeVars(post, obs) \cup JudgeRets(post, obs)
-                                \cup (IF e.a = "stabilise" THEN JudgeInv(pre, obs, coneB) \cup JudgeDlv(pre, obs) \cup JudgeInReads(pre, obs) ELSE {})
-                                \cup JudgeAudit(post, obs)
+                                \cup (IF e.a = "stabilise" THEN JudgeInv(pre, obs, coneB) \cup JudgeDlv(pre, obs) \cup JudgeInReads(pre, obs) \cup JudgeMemo(pre, obs) ELSE {})
+                                \cup JudgeAudit(post, obs) \cup JudgeOwn(post, obs)
                            ELSE {})
               div == IF obs.panic = "" /\ Ok(post) THEN Diverge(post, obs.snap)
                      ELSE IF obs.panic = "" /\ ~Ok(post) THEN {"model_panics:" \o post.panic} ELSE {}
-          IN /\ st' = post
+          IN /\ st' = Settle(post)
              /\ nbad' = nbad + Cardinality(bad)
              /\ ndiv' = ndiv + Cardinality(div)
              /\ (bad # {} => PrintT(<<"JUDGE", l, Field(e, "run", 0), ToJson(bad)>>))
